@@ -189,3 +189,92 @@ Example C18_nonvacuous_nested :
           EClosure (C18Examples.A 18 RKBool) (EBinary (C18Examples.A 21 RKBool) BGt (EPointer (C18Examples.A 19 RKInvalid)) (EInt (C18Examples.A 23 (RKNum KInt)) 0))])]) =
     Done (VArr TIface [vint 1; vint 2; vint 0]) (mkRS 3 []).
 Proof. exact C18Examples.ex_nested. Qed.
+
+(* ------------------------------------------------------------------------------------------------------------------
+   TRANSFER TO COMPILED CODE over the source-level pipeline (BC/SourceIdentities.v): the identities above composed with the
+   capstone of C01 (BC/SourceCorrect.v C01_source_pipeline_correct in its decidable form).  BOTH sides of an identity are
+   compiled by the REGENERATED compiler schemes and run by the REGENERATED dispatch loop from machines in ANY state:
+     compiled_run fe cfg env c e d before =
+       match gen_compile_program GenSchemes.schemes (esize e) (c_mapenv cfg) c e with
+       | Some P => VMSteps.interp_run fe cfg env P GenVMSteps.vm_src d before | None => None end
+   Side conditions, stated once: `pair_ok fe cfg env c d1 d2 e1 e2 : bool` (decidable, executable: each side compilable,
+   VMSteps.run_guard along its run, the fuel d1 / d2 enough for the model run to finish) and `env_ok fe` (= fn_no_machine fe,
+   the capstone's hypothesis on the environment functions, a Prop as in the capstone).
+   Result relation `runs_rel R o1 o2`: both runs finish and R relates their results up to the allocation counter of a FAILED
+   run (erase_stop_mem, as in the capstone); R is the relation of the identity (res_agree / count_vs_len_filter_run). *)
+Require Import X.BC.SourceIdentities.
+
+(* the generic transfer: ANY relation proved of the reference runs of two expressions holds of their compiled runs *)
+Theorem C18_identity_transfer :
+  forall (R : result -> result -> Prop) fe cfg env c d1 d2 e1 e2 before1 before2,
+    env_ok fe -> pair_ok fe cfg env c d1 d2 e1 e2 = true ->
+    R (X.BC.VMSteps.erase_stop_mem (run_ref fe cfg env c e1))
+      (X.BC.VMSteps.erase_stop_mem (run_ref fe cfg env c e2)) ->
+    runs_rel R (compiled_run fe cfg env c e1 d1 before1) (compiled_run fe cfg env c e2 d2 before2).
+Proof. exact identity_transfer. Qed.
+Print Assumptions C18_identity_transfer.
+
+Theorem C18_compiled_all_not_any_not :
+  forall fe cfg env c d1 d2 before1 before2 a1 a2 a3 a4 a5 a6 n1 n2 x p,
+    env_ok fe ->
+    pair_ok fe cfg env c d1 d2
+      (EBuiltin a1 BiAll [x; EClosure a2 p])
+      (EUnary a3 n1 (EBuiltin a4 BiAny [x; EClosure a5 (EUnary a6 n2 p)])) = true ->
+    is_not n1 = true -> is_not n2 = true ->
+    runs_rel (res_agree [aloc a1] [aloc a4; aloc a6])
+      (compiled_run fe cfg env c (EBuiltin a1 BiAll [x; EClosure a2 p]) d1 before1)
+      (compiled_run fe cfg env c (EUnary a3 n1 (EBuiltin a4 BiAny [x; EClosure a5 (EUnary a6 n2 p)])) d2 before2).
+Proof. exact compiled_all_not_any_not. Qed.
+Print Assumptions C18_compiled_all_not_any_not.
+
+Theorem C18_compiled_none_not_any :
+  forall fe cfg env c d1 d2 before1 before2 a1 a3 a4 n1 x cl,
+    env_ok fe ->
+    pair_ok fe cfg env c d1 d2 (EBuiltin a1 BiNone [x; cl]) (EUnary a3 n1 (EBuiltin a4 BiAny [x; cl])) = true ->
+    is_not n1 = true ->
+    runs_rel (res_agree [aloc a1] [aloc a4])
+      (compiled_run fe cfg env c (EBuiltin a1 BiNone [x; cl]) d1 before1)
+      (compiled_run fe cfg env c (EUnary a3 n1 (EBuiltin a4 BiAny [x; cl])) d2 before2).
+Proof. exact compiled_none_not_any. Qed.
+Print Assumptions C18_compiled_none_not_any.
+
+Theorem C18_compiled_one_count_eq_1 :
+  forall fe cfg env c d1 d2 before1 before2 a1 a2 a3 a4 x cl,
+    env_ok fe ->
+    pair_ok fe cfg env c d1 d2
+      (EBuiltin a1 BiOne [x; cl]) (EBinary a2 BEq (EBuiltin a3 BiCount [x; cl]) (EInt a4 1)) = true ->
+    int_const a4 1 = vint 1 ->
+    both_kind RKString (EBuiltin a3 BiCount [x; cl]) (EInt a4 1) = false ->
+    runs_rel (res_agree [aloc a1] [aloc a3])
+      (compiled_run fe cfg env c (EBuiltin a1 BiOne [x; cl]) d1 before1)
+      (compiled_run fe cfg env c (EBinary a2 BEq (EBuiltin a3 BiCount [x; cl]) (EInt a4 1)) d2 before2).
+Proof. exact compiled_one_count_eq_1. Qed.
+Print Assumptions C18_compiled_one_count_eq_1.
+
+(* count / len(filter): same number; the right side accounts the filtered slice (or is refused for the budget) *)
+Theorem C18_compiled_count_len_filter :
+  forall fe cfg env d1 d2 before1 before2 a1 a2 a3 x cl,
+    env_ok fe ->
+    pair_ok fe cfg env CastNone d1 d2
+      (EBuiltin a1 BiCount [x; cl]) (EBuiltin a2 BiLen [EBuiltin a3 BiFilter [x; cl]]) = true ->
+    (forall v s1, eval fe cfg env [] x rs0 = Done v s1 -> arr_ok v) ->
+    runs_rel (count_vs_len_filter_run cfg [aloc a1] [aloc a3] (aloc a3))
+      (compiled_run fe cfg env CastNone (EBuiltin a1 BiCount [x; cl]) d1 before1)
+      (compiled_run fe cfg env CastNone (EBuiltin a2 BiLen [EBuiltin a3 BiFilter [x; cl]]) d2 before2).
+Proof. exact compiled_count_len_filter. Qed.
+Print Assumptions C18_compiled_count_len_filter.
+
+Theorem C18_compiled_len_map :
+  forall fe cfg env d1 d2 before1 before2 a1 a2 a3 x cl v s2,
+    env_ok fe ->
+    pair_ok fe cfg env CastNone d1 d2
+      (EBuiltin a1 BiLen [EBuiltin a2 BiMap [x; cl]]) (EBuiltin a3 BiLen [x]) = true ->
+    compiled_run fe cfg env CastNone (EBuiltin a1 BiLen [EBuiltin a2 BiMap [x; cl]]) d1 before1 = Some (Done v s2) ->
+    exists s1, compiled_run fe cfg env CastNone (EBuiltin a3 BiLen [x]) d2 before2 = Some (Done v s1).
+Proof. exact compiled_len_map. Qed.
+Print Assumptions C18_compiled_len_map.
+
+(* non-vacuity on a NESTED instance: count(filter([1, 2, 3, 4], {# > 1}), {# > 2}) vs len(filter(filter(..), {# > 2})):
+   pair_ok = true by vm_compute, both compiled runs return 2 (the left one from a dirty machine); under budget 8 the
+   right side is refused, the left is not: Example compiled_count_len_filter_nonvacuous in BC/SourceIdentities.v (checked there) *)
+Check compiled_count_len_filter_nonvacuous.
